@@ -106,11 +106,14 @@ class _Rec(object):
         self.rn_calls = []     # (size, timeout, outcome)
 
     def read_nonblocking(self, size=1, timeout=-1):
+        self._in_rnb = getattr(self, '_in_rnb', 0) + 1      # (lets a tap on logfile_read tell these reads from the asyncio transport's)
         try:
             s = super(_Rec, self).read_nonblocking(size, timeout)
         except BaseException as e:
             self.rn_calls.append((size, timeout, type(e).__name__))
             raise
+        finally:
+            self._in_rnb -= 1
         if not getattr(self, '_rec_via_log', False):
             self.chunks.append(s)
         self.rn_calls.append((size, timeout, len(s)))
